@@ -1119,7 +1119,7 @@ func (i *interpreter) toNativeArg(fr *frame, v value) any {
 	case bool, int, int8, int16, int32, int64, uint, uint8, uint16, uint32, uint64, uintptr, float32, float64, string:
 		return v
 	case sv:
-		return i.toNativeArg(fr, i.concretize(v))
+		return "<symbolic>" // messages are opaque; never fork on a value only because it is printed
 	case []value:
 		// []byte?
 		allBytes := len(v) > 0
